@@ -54,8 +54,13 @@ def _ev(e, env, version):
         if a is None or b is None:
             return None
         try:
+            if op in ("%", "/"):
+                if b == 0 or a < 0 or b < 0:
+                    return None
+                return a % b if op == "%" else a // b
             return {"&": a & b, "|": a | b, "^": a ^ b, "+": a + b, "-": a - b, "==": int(a == b), "!=": int(a != b),
-                    "<": int(a < b), "<=": int(a <= b), ">": int(a > b), ">=": int(a >= b), "<<": a << b, ">>": a >> b}[op]
+                    "<": int(a < b), "<=": int(a <= b), ">": int(a > b), ">=": int(a >= b), "<<": a << b, ">>": a >> b,
+                    "*": a * b}[op]
         except (KeyError, ValueError):
             return None
     return None
